@@ -35,12 +35,15 @@ impl<'a> Encoding<'a> for WindowsEncoding {
     }
 
     fn hash<H: Hasher>(path: &[u8], h: &mut H) {
-        let (prefix_len, verbatim) = match Self::components(path).prefix() {
+        // Separators and `.` must be treated exactly as the parser treats them, and the parser
+        // only skips normalization when the path starts with exactly `\\?\`
+        let verbatim = path.starts_with(br"\\?\");
+        let prefix_len = match Self::components(path).prefix() {
             Some(prefix) => {
                 prefix.hash(h);
-                (prefix.len(), prefix.kind().is_verbatim())
+                prefix.len()
             }
-            None => (0, false),
+            None => 0,
         };
         let bytes = &path[prefix_len..];
 
@@ -49,9 +52,9 @@ impl<'a> Encoding<'a> for WindowsEncoding {
 
         for i in 0..bytes.len() {
             let is_sep = if verbatim {
-                path[i] == SEPARATOR as u8
+                bytes[i] == SEPARATOR as u8
             } else {
-                path[i] == SEPARATOR as u8 || path[i] == ALT_SEPARATOR as u8
+                bytes[i] == SEPARATOR as u8 || bytes[i] == ALT_SEPARATOR as u8
             };
             if is_sep {
                 if i > component_start {
